@@ -19,8 +19,8 @@ import translate_tables
 
 PROP = "C20"
 HEADER = "From RattrV Require Import Base Str Cli Precedence CliTable C20Check.\nOpen Scope string_scope.\nOpen Scope list_scope.\n"
-MODEL_FILES = ["model/Base.v", "model/Str.v", "model/Cli.v", "gen/CliTable.v", "spec/Precedence.v", "spec/C20Check.v"]
-PROOF_FILES = ["proofs/C20Proofs.v", "props/C20.v"]
+MODEL_FILES = ["model/Base.v", "model/Str.v", "model/Cli.v", "model/ProjRoot.v", "gen/CliTable.v", "spec/Precedence.v", "spec/C20Check.v"]
+PROOF_FILES = ["proofs/C20Proofs.v", "proofs/C20Root.v", "props/C20.v"]
 
 # per option: toml key, cli flag, dest, candidate TOML values (valid + invalid), candidate CLI values
 OPTIONS = [
@@ -165,6 +165,147 @@ def subprocess_cases():
     return out
 
 
+# ---------- which TOML file is selected: model/ProjRoot.v against find_project_root / find_pyproject_toml / real runs ----------
+ROOT_HEADER = "From RattrV Require Import Base ProjRoot.\nOpen Scope list_scope.\n"
+FIXED_LAYOUTS = {
+    # name -> ([markers of cwd, of its parent, of the grandparent...], override)   marker = (pyproject, .git, .hg, .svn)
+    "worktree or submodule (.git is a file) below a configured project": ([("Absent", "IsFile", "Absent", "Absent"), ("Absent", "Absent", "Absent", "Absent"), ("IsFile", "IsDir", "Absent", "Absent")], None),
+    "nested clone (.git directory) below a configured project": ([("Absent", "IsDir", "Absent", "Absent"), ("IsFile", "Absent", "Absent", "Absent")], None),
+    ".hg as a file is no marker": ([("Absent", "Absent", "IsFile", "Absent"), ("IsFile", "Absent", "Absent", "Absent")], None),
+    ".svn as a file is no marker": ([("Absent", "Absent", "Absent", "IsFile"), ("IsFile", "Absent", "Absent", "Absent")], None),
+    ".hg directory below a configured project": ([("Absent", "Absent", "IsDir", "Absent"), ("IsFile", "Absent", "Absent", "Absent")], None),
+    ".svn directory below a configured project": ([("Absent", "Absent", "Absent", "IsDir"), ("IsFile", "Absent", "Absent", "Absent")], None),
+    "pyproject.toml that is a directory": ([("IsDir", "Absent", "Absent", "Absent"), ("IsFile", "Absent", "Absent", "Absent")], None),
+    "configured subproject below a configured project": ([("IsFile", "Absent", "Absent", "Absent"), ("IsFile", "IsDir", "Absent", "Absent")], None),
+    "plain subdirectory of a configured project": ([("Absent", "Absent", "Absent", "Absent"), ("Absent", "Absent", "Absent", "Absent"), ("IsFile", "Absent", "Absent", "Absent")], None),
+    "existing override in a configured project": ([("IsFile", "IsDir", "Absent", "Absent")], "exists"),
+    "missing override in a subdirectory": ([("Absent", "Absent", "Absent", "Absent"), ("IsFile", "Absent", "Absent", "Absent")], "missing"),
+    "existing override in a worktree": ([("Absent", "IsFile", "Absent", "Absent"), ("IsFile", "Absent", "Absent", "Absent")], "exists"),
+}
+
+
+def gen_layouts(rng: random.Random, tier: str):
+    out = [(name, m, o) for name, (m, o) in FIXED_LAYOUTS.items()]
+    n = 150 if tier == "quick" else 3000
+
+    def pick(weights):
+        return rng.choices(["Absent", "IsFile", "IsDir"], weights=weights)[0]
+    for i in range(n):
+        depth = rng.randint(1, 4)
+        markers = [(pick([55, 35, 10]), pick([65, 17, 18]), pick([80, 10, 10]), pick([80, 10, 10])) for _ in range(depth)]
+        out.append((f"layout{i}", markers, rng.choice([None, None, "exists", "missing"])))
+    return out
+
+
+def _stat(p) -> str:
+    import os
+    return "IsDir" if os.path.isdir(p) else "IsFile" if os.path.isfile(p) else "Absent"
+
+
+def materialise_layout(base, markers):
+    """base/l<k>/.../l1/l0 with l0 the working directory; returns the directories, working directory first."""
+    dirs = []
+    d = base
+    for k in reversed(range(len(markers))):
+        d = d / f"l{k}"
+        d.mkdir()
+        dirs.append(d)
+    dirs.reverse()
+    for j, (d, (py, git, hg, svn)) in enumerate(zip(dirs, markers)):
+        for name, kind in (("pyproject.toml", py), (".git", git), (".hg", hg), (".svn", svn)):
+            if kind == "IsDir":
+                (d / name).mkdir()
+            elif kind == "IsFile":
+                (d / name).write_text(f'[tool.rattr]\nexclude = ["lvl{j}_.*"]\n' if name == "pyproject.toml" else "gitdir: /nowhere\n")
+    fns = [f"lvl{j}_f" for j in range(len(markers))] + ["ovr_f", "keep"]
+    (dirs[0] / "target.py").write_text("\n".join(f"def {f}(a):\n    return a.{f}_attr\n" for f in fns))
+    (dirs[0] / "ovr.toml").write_text('[tool.rattr]\nexclude = ["ovr_.*"]\n')
+    return dirs, fns
+
+
+def chain_of(cwd):
+    """The markers as the harness itself sees them, from the working directory to the file-system root."""
+    from pathlib import Path
+    cwd = Path(cwd).resolve()
+    return [(d, tuple(_stat(d / n) for n in ("pyproject.toml", ".git", ".hg", ".svn"))) for d in [cwd, *cwd.parents]]
+
+
+def choice_term(excluded, n_levels) -> str:
+    pats = list(excluded or [])
+    if pats == ["ovr_.*"]:
+        return "TOverride"
+    for j in range(n_levels):
+        if pats == [f"lvl{j}_.*"]:
+            return f"(TProject {j})"
+    return "TNothing" if not pats else "(TProject 999)"
+
+
+def root_cases(rng, tier):
+    """In-process: find_project_root / parse_arguments with the working directory inside generated directory trees."""
+    import os
+    from pathlib import Path
+    from rattr.cli import parse_arguments
+    from rattr.config._util import find_project_root
+    terms, metas = [], []
+    oldcwd = os.getcwd()
+    with D.Scratch() as root:
+        for i, (name, markers, override) in enumerate(gen_layouts(rng, tier)):
+            base = root / f"r{i}"
+            base.mkdir()
+            dirs, fns = materialise_layout(base, markers)
+            chain = chain_of(dirs[0])
+            paths = [d for d, _ in chain]
+            argv = (["-c", "ovr.toml"] if override == "exists" else ["-c", "nope.toml"] if override == "missing" else []) + ["target.py"]
+            os.chdir(dirs[0])
+            try:
+                with rt.capture_stderr():
+                    try:
+                        obs_root = Path(find_project_root()).resolve()
+                        ns = parse_arguments(sys_args=argv, exit_on_error=False)
+                        excluded = getattr(ns, "_excluded_names", None)
+                        failed = None
+                    except BaseException as e:  # noqa: BLE001
+                        obs_root, excluded, failed = None, None, f"{type(e).__name__}: {e}"
+            finally:
+                os.chdir(oldcwd)
+            root_ix = paths.index(obs_root) if obs_root in paths else 999
+            cterm = C.clist(f"(mkDir {a} {b} {c} {d})" for _, (a, b, c, d) in chain)
+            choice = choice_term(excluded, len(markers)) if failed is None else "(TProject 998)"
+            terms.append(f"(mkRootCase {cterm} {C.cbool(override is not None)} {C.cbool(override == 'exists')} {root_ix} {choice})")
+            metas.append({"layout": name, "markers_cwd_first": [dict(zip(("pyproject.toml", ".git", ".hg", ".svn"), m)) for m in markers],
+                          "args": argv, "rattr_project_root": None if obs_root is None else str(obs_root).replace(str(base), "<base>"),
+                          "rattr_excluded_names": excluded, "raised": failed})
+    return terms, metas
+
+
+def layout_subprocess_runs(layouts):
+    """Real runs of the command line in the fixed layouts (and in any layout the in-process suite flagged)."""
+    out = []
+    with D.Scratch() as root:
+        for i, (name, markers, override) in enumerate(layouts):
+            base = root / f"s{i}"
+            base.mkdir()
+            dirs, fns = materialise_layout(base, markers)
+            argv = (["-c", "ovr.toml"] if override == "exists" else ["-c", "nope.toml"] if override == "missing" else []) + ["-o", "results", "target.py"]
+            r = D.run_rattr(dirs[0], argv)
+            try:
+                present = sorted(json.loads(r["stdout"]))
+            except Exception:  # noqa: BLE001
+                present = None
+            chain = chain_of(dirs[0])
+            cterm = C.clist(f"(mkDir {a} {b} {c} {d})" for _, (a, b, c, d) in chain)
+            if present is None:
+                choice = "(TProject 998)"
+            else:
+                missing = sorted(set(fns) - set(present))
+                choice = choice_term([m.replace("_f", "_.*") for m in missing], len(markers))
+            term = f"(mkRootCase {cterm} {C.cbool(override is not None)} {C.cbool(override == 'exists')} (find_root {cterm}) {choice})"
+            out.append((term, {"layout": name, "markers_cwd_first": [dict(zip(("pyproject.toml", ".git", ".hg", ".svn"), m)) for m in markers], "args": argv,
+                               "exit": r["exit"], "functions_in_results": present, "all_functions": fns, "stderr": rt.strip_ansi(r["stderr"])[-300:],
+                               "each pyproject.toml at level j holds": 'exclude = ["lvl<j>_.*"]', "ovr.toml holds": 'exclude = ["ovr_.*"]'}))
+    return out
+
+
 EXPECT_SUBPROCESS = {
     # label -> (stdout kind, functions absent from results)
     "project file only": ("silent", None),
@@ -238,6 +379,23 @@ def main(tier: str) -> int:
             sub_fail.append({"scenario": label, "args": extra, "why": why, "exit": r["exit"], "stdout": r["stdout"][:400],
                              "stderr": rt.strip_ansi(r["stderr"])[-400:]})
 
+    # which TOML is selected
+    r_terms, r_metas = root_cases(rng, tier)
+    root_model_ok = "model/ProjRoot.v" in build.ok_targets
+    r_codes = C.coq_eval_codes("c20root", ROOT_HEADER, "root_case", "root_code", r_terms, shard=400) if root_model_ok else [0] * len(r_terms)
+    root_disagree = [m for c, m in zip(r_codes, r_metas) if c]
+    flagged = {m["layout"] for m in root_disagree}
+    layouts = gen_layouts(random.Random(C.SEED), tier)
+    e2e_layouts = [l for l in layouts if l[0] in FIXED_LAYOUTS] + [l for l in layouts if l[0] in flagged and l[0] not in FIXED_LAYOUTS][:6]
+    e2e = layout_subprocess_runs(e2e_layouts)
+    e2e_codes = C.coq_eval_codes("c20e2e", ROOT_HEADER, "root_case", "root_code", [t for t, _ in e2e], shard=400) if root_model_ok else [0] * len(e2e)
+    e2e_fail = [m for c, (_, m) in zip(e2e_codes, e2e) if c & 2]
+    for m in e2e_fail[:3]:
+        V.violation({"property": PROP, "why": "a real run used a different TOML file than the one the property selects (the -c override if it exists, else the pyproject.toml of the project - the nearest "
+                                               "directory, from the working directory upwards, holding a pyproject.toml file, a .git entry, a .hg or a .svn directory)", **m})
+    if root_disagree and not e2e_fail:
+        V.violation({"property": PROP, "broken": "correspondence suite c20root (model/ProjRoot.v vs find_project_root / parse_arguments in generated directory trees)",
+                     "disagreements": len(root_disagree), "first": root_disagree[0]}, failing_input=False)
     for m in sub_fail[:3]:
         V.violation({"property": PROP, **m})
     for m in new[:5]:
@@ -259,13 +417,19 @@ def main(tier: str) -> int:
     C.write_evidence(PROP, coverage={
         "obligations": max(n_obl, 1) + 1, "discharged": n_done + (1 if terr is None else 0), "checker_cmd": "cd /verif && ./setup.sh (regenerates gen/CliTable.v) && make -C coq props/C20.vo",
         "trusted_base": C.TRUSTED_BASE_COMMON + ["harness/translate_tables.py cli_table (introspects the argparse parsers the source builds)",
-                                                 "argparse is modelled for canonical long options with separate values only"],
-        "evaluations": len(terms) + len(sub), "distinct_nontrivial": len({t for t in terms}),
+                                                 "argparse is modelled for canonical long options with separate values only",
+                                                 "the file system is an oracle of model/ProjRoot.v: the harness stats the markers of the working directory and all its ancestors with os.path"],
+        "evaluations": len(terms) + len(sub) + len(r_terms) + len(e2e), "distinct_nontrivial": len({t for t in terms}),
         "rule": "per option every {absent, valid..., invalid...} TOML value x every {absent, valid, invalid} CLI value (exhaustive), every pair of options over {absent, valid, invalid} x {absent, valid}, "
-                "a seeded sample of the full product with unknown keys and shuffled order; 7 real subprocess scenarios with pyproject.toml and -c override files; distinct = distinct (toml, cli)",
+                "a seeded sample of the full product with unknown keys and shuffled order; 7 real subprocess scenarios with pyproject.toml and -c override files; distinct = distinct (toml, cli); "
+                "TOML selection: generated directory trees (depth 1-4, each level with pyproject.toml / .git / .hg / .svn absent, a file or a directory, -c absent / existing / missing) in-process against model/ProjRoot.v, "
+                "12 fixed layouts (worktree, nested clone, marker files, subprojects) as real runs",
         "traces_validated_against_impl": len(terms), "disagreements_checked": len(corr_fail), "spec_failures_new": len(new),
         "spec_failures_in_known_classes": len(spec_fail) - len(new), "subprocess_scenarios": len(sub), "subprocess_failures": len(sub_fail),
         "rejected_cases": sum(1 for m in metas if m["rattr_namespace"] is None),
+        "toml_selection_layouts_in_process": len(r_terms), "toml_selection_disagreements": len(root_disagree),
+        "toml_selection_real_runs": len(e2e), "toml_selection_real_run_failures": len(e2e_fail),
+        "toml_selection_marker_mix": {k: sum(1 for m in r_metas if m["markers_cwd_first"][0][k] != "Absent") for k in ("pyproject.toml", ".git", ".hg", ".svn")},
         "print_assumptions": pa, "broken_obligation_files": broken, "samples": [metas[3], metas[-1]]},
         wall_s=T.s, assumptions=["command lines use canonical long options with the value as a separate argument"], violations=len(V.violations))
     return V.finish()
